@@ -228,3 +228,39 @@ Fixpoint run_bus {A : Type} (p : prog A) (b : list vsign) : list vsign * outcome
       | Some (b', r) => run_bus (k r) b'
       end
   end.
+
+(* ------------------------------------------------------------------ *)
+(* An application calling several methods of Sign one after the other over one bus.  The Rust object carries
+   nothing from one call to the next except its address, its sign type and the bus handle, so a sequence of calls
+   is each call's program run on what the previous calls left of the bus's replies. *)
+Inductive cop : Type :=
+| CopConfigure (a : N) (t : sign_type)
+| CopConfigureIfNeeded (a : N) (t : sign_type)
+| CopSendPages (a : N) (ps : list page)
+| CopShow (fuel : nat) (a : N)
+| CopLoadNext (fuel : nat) (a : N)
+| CopShutDown (a : N).
+
+Inductive cout : Type := OutUnit | OutStyle (s : flip_style).
+
+Definition cop_prog (c : cop) : prog cout :=
+  match c with
+  | CopConfigure a t => configure a t ;;; Ret OutUnit
+  | CopConfigureIfNeeded a t => configure_if_needed a t ;;; Ret OutUnit
+  | CopSendPages a ps => s <- send_pages a ps ;; Ret (OutStyle s)
+  | CopShow fuel a => show_loaded_page fuel a ;;; Ret OutUnit
+  | CopLoadNext fuel a => load_next_page fuel a ;;; Ret OutUnit
+  | CopShutDown a => shut_down a ;;; Ret OutUnit
+  end.
+
+(* The calls in order; a call that is left waiting for a reply (or crashes) ends the sequence. *)
+Fixpoint run_cops_script (cs : list cop) (script : list reply) : list (list msg * outcome cout) :=
+  match cs with
+  | [] => []
+  | c :: cs' =>
+      let '(tr, o) := run_script (cop_prog c) script in
+      (tr, o) :: match o with
+                 | Blocked | Crashed => []
+                 | _ => run_cops_script cs' (skipn (length tr) script)
+                 end
+  end.
